@@ -45,11 +45,11 @@ META = {
              'array in C / Fortran / strided / int64 layout driven through every linear_fit wrapper with the '
              'end-point fit and a random line; R2 variants classic and adjusted (n >= 3). distinct = digest(y, y_hat, '
              'layouts); non-trivial = y != y_hat'),
-    'require': {'model:r2': 1000, 'model:rmse': 800, 'model:rmsle': 700, 'model:rmspe': 700, 'model:rpd': 700,
-                'model:smape': 900, 'model:residuals': 1500, 'symmetry': 2000, 'sign': 4000, 'zero': 250,
-                'bound:smape': 900, 'bound:r2': 1000, 'wrapper': 10000, 'wrapper:linear_r2': 2500,
-                'endpoint-fit': 2000, 'lf.r2:pearson': 500, 'lf.r2:adjusted': 500, 'lf.r2:constant-y': 40,
-                'nontrivial': 1000},
+    'require': {'model:r2': 2400, 'model:rmse': 6500, 'model:rmsle': 4500, 'model:rmspe': 4500, 'model:rpd': 5500,
+                'model:smape': 8000, 'model:residuals': 14000, 'symmetry': 29000, 'sign': 44000, 'zero': 3500,
+                'bound:smape': 8000, 'bound:r2': 17000, 'wrapper': 130000, 'wrapper:linear_r2': 15000,
+                'endpoint-fit': 9900, 'lf.r2:pearson': 2200, 'lf.r2:adjusted': 2200, 'lf.r2:constant-y': 380,
+                'nontrivial': 1150},
     'scale': {'quick': 1, 'thorough': 20},
     'shards': {'quick': 16, 'thorough': 16},
     'quick_cases': 4000, 'thorough_cases': 120000,
